@@ -5,6 +5,7 @@
 #include <list>
 #include <mutex>
 #include <memory>
+#include <system_error>
 #include <thread>
 
 #ifdef VS_PROJECT
@@ -99,7 +100,13 @@ void owner_op(char op) {
             int k = next_task();
             auto *t = new Task(k);
             ev("Submit", k, 0);
-            g_pool->start(t);
+            try {
+                g_pool->start(t);
+            } catch (const std::system_error &) {
+                // the thread could not be created (failcreate=N): the task stays queued, nothing else may have changed
+                ev("StartThrew", k, 0);
+                break;
+            }
             ev("StartRet", k, 0);
             break;
         }
@@ -367,6 +374,7 @@ void run_exec(const Execution &ex) {
         if (rd_access_yield) rd_access_yield((int) ex.cfg.num("accy", 0), (unsigned) ex.cfg.num("seed", 1));
         if (ex.cfg.num("accy", 0)) ctl.max_steps *= 20;
         ctl.spurious_per_1000 = (int) ex.cfg.num("spurious", 0);
+        ctl.fail_create_nth = (int) ex.cfg.num("failcreate", 0);
         // a timed wait (none in the code as it stands) may time out at any moment: the holder may be arbitrarily slow
         ctl.timeout_per_1000 = (int) ex.cfg.num("timeouts", 40);
         ctl.stay_num = (int) ex.cfg.num("stay", 1);
